@@ -43,6 +43,17 @@ pub fn streams(thorough: bool) -> Vec<(Vec<V>, &'static str)> {
 		out.push((vec![V::Map(vec![(V::s(k), V::Map(vec![(V::s("x"), V::s(k))]))])], "first-key"));
 		out.push((vec![V::Arr(vec![V::s(k)])], "first-elem"));
 	}
+	// a table header first, the interesting string only later in the document (so that an earlier
+	// detection trial may give up long before the end of the input)
+	for k in &first_keys {
+		out.push((
+			vec![V::Map(vec![
+				(V::s("t"), V::Map(vec![(V::s("x"), V::Int(1)), (V::s("y"), V::s(k))])),
+				(V::s("u"), V::Map(vec![(V::s(k), V::Arr(vec![V::s(k), V::s("tail")]))])),
+			])],
+			"nested-strings",
+		));
+	}
 	// sizes around MessagePack header widths
 	for len in [0usize, 1, 15, 16, 17, 255, 256, 65535, 65536] {
 		if len > 300 && !thorough && len != 65536 && len != 65535 {
